@@ -33,6 +33,7 @@ class Outcome:
 
     def viol(self, kind, detail, **witness):
         self.violations.append(dict(kind=kind, detail=str(detail)[:600], **witness))
+        self.counters["viol_" + kind] = self.counters.get("viol_" + kind, 0) + 1
 
     def count(self, name, n=1):
         self.counters[name] = self.counters.get(name, 0) + n
